@@ -49,7 +49,7 @@ class Program:
         names = [self.dt] + self.state + self.control + self.calibration
         return {n: sympy.Symbol(n) for n in names}
 
-    def ui_model(self, container="list"):
+    def ui_model(self, container="list", proactive_simplify=False):
         from formak import ui_model
 
         st = self.symtab()
@@ -60,7 +60,7 @@ class Program:
         items = [(st[n], X.to_sympy(self.update[n], st)) for n in self.update]
         if container == "reversed":
             items = list(reversed(items))
-        return ui_model.Model(dt=st[self.dt], state=state, control=control, state_model=dict(items), calibration=calibration)
+        return ui_model.Model(dt=st[self.dt], state=state, control=control, state_model=dict(items), calibration=calibration, proactive_simplify=proactive_simplify)
 
     def sympy_sensors(self, reverse=False):
         st = self.symtab()
@@ -270,6 +270,28 @@ def P10():
         sensor_noise={"sb": {"b": 0.5, "a": 0.25}, "ta": {"c": 1.5}},
         calibration_values={"g1": 0.5, "g2": 1.25, "g3": 0.75},
         note="3 controls, 3 calibrations, 2 states: controls/calibrations outnumber states",
+    )
+
+
+def P11():
+    """Inverse-function compositions, abs and sqrt of a square: targets of unsound 'simplifications'.
+    Model-level only (abs is not differentiable; the EKF checks do not use this program)."""
+    h, p, d, w, k, dt = V("h"), V("p"), V("d"), V("w"), V("k"), V("dt")
+    return Program(
+        id="P11-angles",
+        state=["p", "h", "d"],
+        control=["w"],
+        calibration=["k"],
+        update={
+            "p": X.asin(X.sin(p + dt * w * k)),
+            "h": X.atan(X.tan(h + dt * w)),
+            "d": d - dt * k * (d - w) * X.absv(d - w) + X.sqrt((d + w) * (d + w)) * dt,
+        },
+        process_noise={"w": 0.5},
+        sensors={},
+        sensor_noise={},
+        calibration_values={"k": 0.75},
+        note="angle wrapping atan(tan(.)), asin(sin(.)), quadratic drag with abs, sqrt of a square",
     )
 
 
